@@ -182,6 +182,9 @@ fn one_run(seed: u64, run: u64, exhaustive_budgets: bool) -> RunResult {
         } else {
             crate::gen::g15::G15::new(&mut wl).generate(8).0.iter().map(|f| f.text()).collect()
         }
+    } else if run % 16 == 14 {
+        // live structures more than a thousand non-cdr edges deep, built and walked under slices
+        crate::gen::templates_deep::deep_session(&mut wl).0
     } else if run % 8 == 6 {
         crate::gen::templates::mixed_session(&mut wl).0
     } else {
